@@ -80,8 +80,9 @@ QUERIES = [
     ('mutating_expr', 'select star_fields.append(1)'),
 ]
 
-FRONTS = ['table', 'iter', 'csv', 'df', 'sqlite', 'sqlite_cli', 'js_table', 'js_iter']
-JOIN_IDS = {'table': 'B', 'iter': 'B', 'csv': 'jt.csv', 'df': 'B', 'sqlite': 'tb', 'sqlite_cli': 'tb', 'js_table': 'B', 'js_iter': 'B'}
+_js_csv_calls = [0]
+FRONTS = ['table', 'iter', 'csv', 'df', 'sqlite', 'sqlite_cli', 'js_table', 'js_iter', 'js_csv']
+JOIN_IDS = {'js_csv': 'jt.csv', 'table': 'B', 'iter': 'B', 'csv': 'jt.csv', 'df': 'B', 'sqlite': 'tb', 'sqlite_cli': 'tb', 'js_table': 'B', 'js_iter': 'B'}
 
 
 # ----------------------------------------------------------------------------- generation
@@ -98,7 +99,7 @@ def generate(rng, tier, idx):
     nops = rng.choice([1, 2, 2, 3, 3, 4, 5, 6])
     ops = []
     for _ in range(nops):
-        front = rng.choices(FRONTS, [18, 12, 16, 8, 14, 6, 14, 12])[0]
+        front = rng.choices(FRONTS, [18, 12, 16, 8, 14, 6, 14, 12, 8])[0]
         kind, q = rng.choice(QUERIES)
         if kind == 'mutating_expr':
             # user code that mutates a row on purpose is the caller's own doing: not generated (kept in the table as documentation)
@@ -109,7 +110,7 @@ def generate(rng, tier, idx):
             op['fault'] = {'kind': 'refuse', 'at': rng.choice([0, 1, 2])}
         elif front == 'csv' and r < 0.25:
             op['fault'] = {'kind': 'sink_break', 'budget': rng.choice([0, 1, 5, 12])}
-        elif front == 'csv' and r < 0.4 and '{J}' in q:
+        elif front in ('csv', 'js_csv') and r < 0.4 and '{J}' in q:
             op['fault'] = {'kind': 'bad_join_byte'}
             op['query'] = q.replace('{J}', 'jtbad.csv')
         elif front in ('sqlite', 'sqlite_cli') and r < 0.45:
@@ -121,6 +122,8 @@ def generate(rng, tier, idx):
                 op['fault'] = {'kind': 'hostile_input_id', 'ident': ident}
         if front == 'csv':
             op['out_to'] = rng.choice(['file', 'stdout'])
+        if front == 'js_csv':
+            op['bulk_read'] = rng.random() < 0.5
         ops.append(op)
     return {'world': world, 'ops': ops}
 
@@ -159,6 +162,8 @@ class World(object):
                 self.A.append(['1', 'v1', 'r', 'extra'])
             if q.get('none_cell') and self.A:
                 self.A[0][-1] = None
+        self.header_snap = list(self.header) if self.header else None
+        self.jheader_snap = list(self.jheader) if self.jheader else None
         self.A_snap = deep(self.A)
         self.B_snap = deep(self.B)
         self.A_ids = [id(r) for r in self.A]
@@ -220,6 +225,8 @@ class World(object):
             return ('list_mutated', {'table': 'A', 'now': self.A, 'before': self.A_snap})
         if self.B != self.B_snap or [id(r) for r in self.B] != self.B_ids:
             return ('list_mutated', {'table': 'B', 'now': self.B, 'before': self.B_snap})
+        if self.header != self.header_snap or self.jheader != self.jheader_snap:
+            return ('list_mutated', {'table': 'column names', 'now': [self.header, self.jheader]})
         out_rows = produced.get('py_rows')
         if out_rows is not None:
             src = self.A + self.B
@@ -335,6 +342,16 @@ def run_op(t, world, op):
             res = t.pandas.query_dataframe(op['query'], world.dfA, warnings, world.dfB)
             produced['df'] = res
             outcome = ['ok', len(res.index)]
+        elif front == 'js_csv':
+            out_path = os.path.join(world.w, 'js_out.csv')
+            r = jsbridge.call({'kind': 'query_csv', 'query': op['query'], 'input_path': world.in_path, 'output_path': out_path, 'delim': ',', 'policy': 'quoted',
+                               'encoding': 'utf-8', 'with_headers': bool(world.header), 'bulk_read': op.get('bulk_read', False)})
+            outcome = r['outcome']
+            _js_csv_calls[0] += 1
+            if _js_csv_calls[0] % 200 == 0:
+                # rbql_csv.query_csv leaves file streams open on its error paths; recycle the Node process so that
+                # descriptors do not pile up in a long batch (this is the JS CSV front-end's matter, C15 is about Python)
+                jsbridge.stop()
         elif front in ('js_table', 'js_iter'):
             req = {'kind': 'query', 'query': op['query'], 'producer': {'type': 'finite', 'rows': [list(r) for r in world.js_rows]},
                    'join_rows': [list(r) for r in world.js_join], 'mutate_output': True,
